@@ -88,6 +88,15 @@ theorem success {s : State} (hinv : Inv s) {h : Nat} (hlt : h < s.hs.length) :
   · obtain ⟨s', v, e, _, a, _⟩ := set_succeeds hinv hlt t pt fr bytes hasSrc off whole inr
     exact ⟨s', v, e, a⟩
 
+/-- the operations the run treats as "may not be refused" (`mustSucceed`, Spec/ArrayOps.lean: the decidable form of
+    the conditions of `success`, plus a cut inside the data of an own, writable, untyped buffer) are not refused by the
+    model; for these the S column of the run has no "refused" alternative -/
+theorem must_succeed {s : State} (hinv : Inv s) (op : Op) (wf : op.wf s.hs.length)
+    (m : mustSucceed s op (s.abs op.handle) = true) : ∃ s', exec s op = .ok s' () :=
+  mustSucceed_ok hinv op wf m
+
+example : mustSucceed { hs := [none], wins := [none] } (.append 0 [1, 2]) [] = true := by decide
+
 /-- the empty handle of the initial state is `Free` for every kind -/
 example : Free { hs := [none], wins := [none] } 0 none := Or.inl rfl
 
